@@ -440,45 +440,84 @@ class Recorder:
 APITRACE_CFG = 'SPECIFICATION Spec\nCHECK_DEADLOCK FALSE\n'
 
 
-def validate_traces(cases, base='ApiTrace', cfg=APITRACE_CFG, shards=4, workers=4, timeout=1200, max_bytes=4_000_000):
-    """cases: list of dict(key=..., mtla=<text>, T=[events]).  Runs TLC over shards in parallel.
-    returns (verdicts: {key: ('ACCEPT'|'REJECT'|'SKIP'|'NONE', report)}, stats dict)."""
-    # shard by size
-    order = sorted(range(len(cases)), key=lambda i: -len(cases[i]['T']))
-    buckets = [[] for _ in range(max(1, min(shards, len(cases))))]
-    sizes = [0] * len(buckets)
+def run_sharded(spec, cases, render_case, machine_of, parallel=4, workers=4, timeout=1500, max_bytes=2_500_000,
+                cfg=APITRACE_CFG):
+    """Generic sharded TLC run.  cases: list; render_case(case) -> TLA text of the case record *without* the
+    machine (it must contain the placeholder @MI@ for the machine index); machine_of(case) -> machine TLA text.
+    Returns (reports_by_case: list of lists, stats)."""
+    rendered = [render_case(c) for c in cases]
+    order = sorted(range(len(cases)), key=lambda i: -len(rendered[i]))
+    shards = []       # each: dict(idx=[...], size=int, machines={text: idx})
     for i in order:
-        j = sizes.index(min(sizes))
-        buckets[j].append(i)
-        sizes[j] += len(cases[i]['T']) + 1
-    stats = {'states': 0, 'transitions': 0, 'runs': 0, 'wall': 0.0, 'errors': []}
-    verdicts = {}
+        sz = len(rendered[i])
+        mt = machine_of(cases[i])
+        placed = False
+        for sh in shards:
+            extra = 0 if mt in sh['machines'] else len(mt)
+            if sh['size'] + sz + extra <= max_bytes:
+                sh['idx'].append(i)
+                sh['size'] += sz + extra
+                sh['machines'].setdefault(mt, len(sh['machines']) + 1)
+                placed = True
+                break
+        if not placed:
+            shards.append({'idx': [i], 'size': sz + len(mt), 'machines': {mt: 1}})
+    stats = {'states': 0, 'transitions': 0, 'runs': 0, 'wall': 0.0, 'errors': [], 'shards': len(shards)}
+    reports = [[] for _ in cases]
 
-    def run_bucket(bi):
-        idxs = buckets[bi]
-        if not idxs:
-            return None
-        # group identical machines to keep the literal small: TLC re-parses every case's M, so this is only textual
-        mod = trace.cases_module('MC', base, [(cases[i]['mtla'], cases[i]['T']) for i in idxs])
-        res = tlc.run_tlc(base, cfg, {'CasesData': mod}, workers=workers, timeout=timeout)
-        return idxs, res
+    def run_shard(sh):
+        mtexts = [None] * len(sh['machines'])
+        for t, k in sh['machines'].items():
+            mtexts[k - 1] = t
+        parts = [rendered[i].replace('@MI@', str(sh['machines'][machine_of(cases[i])])) for i in sh['idx']]
+        mod = ('---- MODULE CasesData ----\nEXTENDS Integers, Sequences, TLC\nMachines == <<\n%s\n>>\nCases == <<\n%s\n>>\n====\n'
+               % (',\n'.join(mtexts), ',\n'.join(parts)))
+        return sh, tlc.run_tlc(spec, cfg, {'CasesData': mod}, workers=workers, timeout=timeout)
 
-    with ThreadPoolExecutor(len(buckets)) as ex:
-        results = list(ex.map(run_bucket, range(len(buckets))))
-    for r in results:
-        if r is None:
-            continue
-        idxs, res = r
+    t0 = time.time()
+    with ThreadPoolExecutor(max(1, min(parallel, len(shards) or 1))) as ex:
+        results = list(ex.map(run_shard, shards))
+    for sh, res in results:
         stats['runs'] += 1
         stats['states'] += res.distinct
         stats['transitions'] += res.generated
-        stats['wall'] = max(stats['wall'], res.wall)
         if not res.ok:
-            stats['errors'].append((res.error or res.stdout[-1500:]))
+            stats['errors'].append(res.error or ('timeout' if res.timeout else res.stdout[-1500:]))
         for rep in res.reports:
+            if 'cid' in rep and 1 <= rep['cid'] <= len(sh['idx']):
+                reports[sh['idx'][rep['cid'] - 1]].append(rep)
+            elif rep.get('kind') == 'UNPARSED':
+                stats['errors'].append('unparsed report line: ' + rep.get('text', '')[:300])
+    stats['wall'] = time.time() - t0
+    return reports, stats
+
+
+def validate_traces(cases, base='ApiTrace', cfg=APITRACE_CFG, shards=4, workers=4, timeout=1200, max_bytes=2_500_000):
+    """cases: list of dict(key=..., mtla=<text>, T=[events]).  Runs TLC over shards in parallel.
+    returns (verdicts: {key: ('ACCEPT'|'REJECT'|'SKIP'|'NONE', report)}, stats dict)."""
+    reports, stats = run_sharded(base, cases, lambda c: '[mi |-> @MI@,\n T |-> %s]' % tlagen.tla(c['T']), lambda c: c['mtla'],
+                                 parallel=shards, workers=workers, timeout=timeout, max_bytes=max_bytes, cfg=cfg)
+    verdicts = {}
+    for c, reps in zip(cases, reports):
+        v = ('NONE', None)
+        for rep in reps:
             if rep.get('kind') in ('ACCEPT', 'REJECT', 'SKIP'):
-                key = cases[idxs[rep['cid'] - 1]]['key']
-                verdicts[key] = (rep['kind'], rep)
-    for c in cases:
-        verdicts.setdefault(c['key'], ('NONE', None))
+                v = (rep['kind'], rep)
+        verdicts[c['key']] = v
     return verdicts, stats
+
+
+def validate_sweeps(cases, workers=4, parallel=4, timeout=1500, max_bytes=2_500_000):
+    """cases: list of dict(key, mtla, S=[sweeps]); a case may be split by the caller to bound its size.
+    returns (list of (verdict, reports) per case, stats)"""
+    def render(c):
+        sw2 = [{k: v for k, v in s.items() if k != 'ctx'} for s in c['S']]
+        return '[mi |-> @MI@,\n S |-> %s]' % tlagen.tla(sw2)
+    reports, stats = run_sharded('StepTrace', cases, render, lambda c: c['mtla'], parallel=parallel, workers=workers,
+                                 timeout=timeout, max_bytes=max_bytes)
+    out = []
+    for c, reps in zip(cases, reports):
+        kinds = [r.get('kind') for r in reps]
+        v = 'REJECT' if 'REJECT' in kinds else ('ACCEPT' if 'ACCEPT' in kinds else 'NONE')
+        out.append((v, reps))
+    return out, stats
